@@ -220,18 +220,32 @@ def run_lines(exe, lines, timeout=1800, env=None):
     e = dict(os.environ)
     e["ASAN_OPTIONS"] = "detect_leaks=1:abort_on_error=0:exitcode=97:allocator_may_return_null=1:hard_rss_limit_mb=6000:max_allocation_size_mb=3000"
     e["UBSAN_OPTIONS"] = "print_stacktrace=1:halt_on_error=1:exitcode=98"
+    e["TSAN_OPTIONS"] = "halt_on_error=1:exitcode=66:second_deadlock_stack=1"
     if env:
         e.update(env)
-    p = subprocess.run([exe], input=data, stdout=subprocess.PIPE, stderr=subprocess.PIPE, timeout=timeout, env=e)
-    out = p.stdout.decode("utf-8", "replace").split("\n")
+    try:
+        p = subprocess.run([exe], input=data, stdout=subprocess.PIPE, stderr=subprocess.PIPE, timeout=timeout, env=e)
+        stdout, rc, stderr = p.stdout, p.returncode, p.stderr
+    except subprocess.TimeoutExpired as ex:
+        stdout, rc, stderr = (ex.stdout or b""), -9, b"timeout: no progress (the call did not return)"
+    out = stdout.decode("utf-8", "replace").split("\n")
     if out and out[-1] == "":
         out.pop()
-    return out, p.returncode, p.stderr.decode("utf-8", "replace")[-3000:]
+    elif out and rc == -9:
+        out.pop()                      # a partial last line
+    return out, rc, stderr.decode("utf-8", "replace")[-3000:]
 
 
-def run_impl(exe, lines, timeout=1800):
-    """run the harness; if it dies (sanitizer abort / crash) isolate the offending line.
+def run_impl(exe, lines, timeout=1800, chunk=None):
+    """run the harness; if it dies (sanitizer abort / crash) or stops making progress (timeout) isolate the offending line.
     returns (outputs, crashes) with outputs[i] = 'CRASH <kind>' for the crashing line"""
+    if chunk:
+        outs, crashes = [], []
+        for i in range(0, len(lines), chunk):
+            o, c = run_impl(exe, lines[i:i + chunk], timeout)
+            outs.extend(o)
+            crashes.extend((i + idx, kind, err) for idx, kind, err in c)
+        return outs, crashes
     outs = []
     crashes = []
     start = 0
@@ -244,8 +258,8 @@ def run_impl(exe, lines, timeout=1800):
         idx = start + len(o)
         if idx >= len(lines):
             break
-        kind = "rc%d" % rc
-        m = re.search(r"(AddressSanitizer|LeakSanitizer|runtime error)[^\n]*", err)
+        kind = "rc%d" % rc if rc != -9 else "HANG(no_result_within_%ds)" % timeout
+        m = re.search(r"(AddressSanitizer|LeakSanitizer|ThreadSanitizer|runtime error)[^\n]*", err)
         if m:
             kind = m.group(0)[:160].replace(" ", "_")
         if len(outs) > idx:
@@ -425,7 +439,7 @@ class Ctx(Report):
         if not ok:
             self.broken.append(("harness-build", harness, out[-3000:]))
             return st
-        impl, crashes = run_impl(exe, lines)
+        impl, crashes = run_impl(exe, lines, getattr(self, "impl_timeout", 1800), getattr(self, "impl_chunk", None))
         if want_model and os.path.exists(DRIVER):
             model = run_model(model_lines if model_lines is not None else lines)
         else:
